@@ -357,14 +357,14 @@ pub fn run(ctx: &mut Ctx) {
                    (VM_MAX_RAM as u128 - 8, 8), (VM_MAX_RAM as u128 - 7, 8), (0, 8), (u64::MAX as u128, 1), (u64::MAX as u128 + 5, 8)] {
         one_case(ctx, &mut vm, "script", Case { own: o, addr: a, len: l });
     }
-    let n = ctx.n(1500, 20000);
+    let n = ctx.n(6000, 80000);
     cases_on(ctx, &mut vm, "script", n);
     // inside real calls: prev_hp = VM_MAX_RAM - H
     for (i, h) in [0u64, 8, 1000, 65536].iter().enumerate() {
         let mut vm = vm_in_call(ctx.seed.wrapping_add(i as u64), *h);
         let prev = prev_hp_of(&vm);
         if prev != VM_MAX_RAM - h { ctx.oracle_fail("saved-hp-in-frame", &format!("call after ALOC {h}"), &format!("saved $hp in frame is {prev}")); }
-        let n = ctx.n(700, 8000);
+        let n = ctx.n(3000, 30000);
         cases_on(ctx, &mut vm, &format!("call-h{h}"), n);
     }
 }
